@@ -155,6 +155,9 @@ func (t *Tr) assumeCl(c Cl, raw bool) {
 		return
 	}
 	q, u := c.Q, c.U
+	if c.A != "" {
+		q = "(and " + c.Q + " " + c.A + ")"
+	}
 	if !raw {
 		q, u = t.guard(q), t.guard(u)
 	}
